@@ -269,7 +269,7 @@ def bash_read(jobs, cwd):
         e["HOME"] = HOME
         e["ZZTOK"] = tok    # not a positional parameter: a badly quoted text may expand `$1`
         e["ZZF"] = os.path.join(cwd, "zzrd-%s-%d" % (tok[-6:], id(chunk)))
-        p = subprocess.run([lib.BASH, "--norc", "--noprofile", "-c", BASH_READER, "bash"], input=data,
+        p = lib.sp_run([lib.BASH, "--norc", "--noprofile", "-c", BASH_READER, "bash"], input=data,
                            stdout=subprocess.PIPE, stderr=subprocess.DEVNULL, env=e, cwd=cwd, timeout=1800)
         recs = p.stdout.split(b"\0")
         out, cur = [], []
